@@ -619,12 +619,14 @@ endmodule
 	result += "\t\t#100;\n\n"
 	result += "\t\treset = 1'b0;\n"
 
-	for _, rule := range sbox.Rules {
-		if rule.Timec == simbox.TIMEC_ABS && rule.Action == simbox.ACTION_SET {
-			result += "\t\t#" + strconv.Itoa(int(rule.Tick)) + ";\n"
-			result += "\t\t" + rule.Object + " = " + rule.Extra + ";\n"
-			result += "\t\t" + rule.Object + "_impulse = 1'b1;\n"
-			result += "\t\t#4 " + rule.Object + "_impulse = 1'b0;\n"
+	if sbox != nil {
+		for _, rule := range sbox.Rules {
+			if rule.Timec == simbox.TIMEC_ABS && rule.Action == simbox.ACTION_SET {
+				result += "\t\t#" + strconv.Itoa(int(rule.Tick)) + ";\n"
+				result += "\t\t" + rule.Object + " = " + rule.Extra + ";\n"
+				result += "\t\t" + rule.Object + "_impulse = 1'b1;\n"
+				result += "\t\t#4 " + rule.Object + "_impulse = 1'b0;\n"
+			}
 		}
 	}
 
